@@ -387,8 +387,10 @@ pub fn placeholders(r: &mut Rng, ev: Ev) -> Vec<Ph> {
         (r.unit() * 2000.0 - 1000.0).round(),
         r.unit(),
     ];
+    // NaNs are not one value: sign, quiet bit and payload are all part of "bit for bit"
+    let nans: [u64; 4] = [0xfff8_0000_0000_0000, 0x7ff8_0000_0000_0001, 0x7ff0_0000_0000_0001, 0x7ffc_dead_beef_0001];
     match ev {
-        Ev::F64 => fl.iter().map(|x| Ph::F64(fb(*x))).collect(),
+        Ev::F64 => fl.iter().map(|x| Ph::F64(fb(*x))).chain(nans.iter().map(|b| Ph::F64(*b))).chain([Ph::F64(fb(5e-324)), Ph::F64(fb(-5e-324)), Ph::F64(fb(2.2250738585072014e-308))]).collect(),
         Ev::I64 => {
             let mut v: Vec<i64> = vec![0, 1, -1, 2, 3, 7, 10, -5, 64, 1000, i64::MAX, i64::MIN, i64::MAX - 1, 1 << 53, (1 << 53) + 1, (1 << 53) - 1, 1 << 31, (1 << 32) + 1, 3002399751580331, -(1 << 53) - 1];
             v.push((r.next() % 2001) as i64 - 1000);
@@ -421,7 +423,12 @@ pub fn placeholders(r: &mut Rng, ev: Ev) -> Vec<Ph> {
             v.push((f64::INFINITY, 1.0));
             v.push((r.unit() * 4.0 - 2.0, r.unit() * 4.0 - 2.0));
             v.push((r.unit(), 0.0));
-            v.into_iter().map(|(a, b)| Ph::Cx(fb(a), fb(b))).collect()
+            let mut out: Vec<Ph> = v.into_iter().map(|(a, b)| Ph::Cx(fb(a), fb(b))).collect();
+            out.push(Ph::Cx(nans[0], 0));
+            out.push(Ph::Cx(nans[1], fb(1.0)));
+            out.push(Ph::Cx(fb(1.0), nans[0]));
+            out.push(Ph::Cx(fb(-0.0), fb(-0.0)));
+            out
         }
         Ev::Num => {
             let mut v = vec![Ph::NumI(0), Ph::NumF(0), Ph::NumI(1), Ph::NumI(-1), Ph::NumI(3), Ph::NumI(10)];
@@ -434,6 +441,9 @@ pub fn placeholders(r: &mut Rng, ev: Ev) -> Vec<Ph> {
             for x in [1i64 << 53, (1 << 53) + 1, (1 << 53) - 1, i64::MAX - 1, 3002399751580331, -(1 << 53) - 1, 1 << 31, (1 << 32) + 1] {
                 v.push(Ph::NumI(x));
             }
+            v.push(Ph::NumF(nans[0]));
+            v.push(Ph::NumF(nans[1]));
+            v.push(Ph::NumF(nans[3]));
             v.push(Ph::NumF(fb(9007199254740992.0)));
             v.push(Ph::NumF(fb(4294967296.0)));
             v.push(Ph::NumI((r.next() % 2001) as i64 - 1000));
@@ -870,6 +880,18 @@ pub fn build_pool(seed: u64, repo: &str, sz: &PoolSizes, focus: Option<&PoolFocu
                         t.insert(0, ' ');
                     }
                     add_expr(&mut pool, &mut r, e, t, "boundary_ladder", 1);
+                }
+            }
+            // superscript exponents and digit literals of growing length (the places where the tokenizers `.unwrap()`
+            // a conversion that overflows for long runs: i64 at 19 digits, Decimal at 29-30, f64 never)
+            for n in [1usize, 2, 9, 10, 15, 16, 17, 18, 19, 20, 21, 28, 29, 30, 31, 32, 40, 64] {
+                let sup: String = (0..n).map(|i| ['⁹', '¹', '²', '³', '⁴', '⁵', '⁶', '⁷', '⁸', '⁰'][i % 10]).collect();
+                add_expr(&mut pool, &mut r, e, format!("2{}", sup), "boundary_ladder", 1);
+                add_expr(&mut pool, &mut r, e, format!("@{}+1", sup), "boundary_ladder", 2);
+                let lit: String = (0..n).map(|i| char::from(b'1' + ((i * 7 + 2) % 9) as u8)).collect();
+                add_expr(&mut pool, &mut r, e, format!("{}+@", lit), "boundary_ladder", 1);
+                if v.floats {
+                    add_expr(&mut pool, &mut r, e, format!("0.{}*@", lit), "boundary_ladder", 1);
                 }
             }
             // dense runs near the top
